@@ -127,9 +127,12 @@ def same_identity(v, back):
 
 def identity_history(ctx, rng, idx):
     import rpyc
-    state = dict(slots={}, owned=[[("B", idx, k)] for k in range(3)], last=None)
+    # owned objects of several truth values: a proxy's truth value is the remote object's (empty containers are falsy)
+    state = dict(slots={}, owned=[[("B", idx, 0)], [], {}] if idx % 2 else [[("B", idx, k)] for k in range(3)], last=None)
     mine = [[("A", idx, k)] for k in range(3)]
     mine[2] = gen.Obj(("A", idx))
+    if idx % 3 == 0:
+        mine[1] = []
     pair = vnet.ServedPair(rpyc.VoidService(), make_service(state)(), cfg_a={"allow_public_attrs": True},
                            cfg_b={"allow_public_attrs": True})
     held = {}      # A-side slots -> proxy of B-owned object k
@@ -188,7 +191,7 @@ def identity_history(ctx, rng, idx):
             elif op == "drop_local":
                 held.pop(slot, None)
                 held_k.pop(slot, None)
-            elif op == "mutate" and k != 2:
+            elif op == "mutate" and k != 2 and isinstance(mine[k], list):
                 tok = ("m", step)
                 root.mutate(mine[k], tok)
                 if mine[k][-1] != tok:
